@@ -259,6 +259,10 @@ func (t *Term) render() string {
 		return "text[" + strings.Join(parts, ",") + "]"
 	case "closure":
 		return "closure:" + t.Fn.Name()
+	case "rtype":
+		return "rtype(" + t.Name + ")"
+	case "rvalue":
+		return "rvalue(" + t.Args[0].String() + ")"
 	case "tuple":
 		parts := []string{}
 		for _, a := range t.Args {
